@@ -222,7 +222,7 @@ func runC04(c *core.Ctx) {
 	ruleMessageIDs(c, lc)
 
 	// ------------------------------------------------------------ address
-	c.Doc("C04.address", "replies carry the request's service/object/action/id; SendReply only changes the type", 7)
+	c.Doc("C04.address", "replies carry the request's service/object/action/id; SendReply only changes the type", 5)
 	ruleReplyAddress(c)
 
 	// ------------------------------------------------------------ post
@@ -376,8 +376,8 @@ func ruleReplyAddress(c *core.Ctx) {
 			c.Check(bad == "", rule, key, call.Pos(), "Service, Object, Action, ID of one request, in the positions of the parameters of the same name", bad)
 		}
 	}
-	if n < 4 {
-		c.Undecided(rule, "NewHeader", newHeader.Pos(), fmt.Sprintf("only %d NewHeader call sites built from a request header found (3 SendError + dispatch expected)", n))
+	if n < 2 {
+		c.Undecided(rule, "NewHeader", newHeader.Pos(), fmt.Sprintf("only %d NewHeader call sites built from a request header found (error answers and the full-queue answer of dispatch expected)", n))
 	}
 	// signalHandler.newHeader(typ, action, id): NewHeader(typ, o.serviceID, o.objectID, action, id)
 	sh := c.Func("bus", "signalHandler", "newHeader")
@@ -402,7 +402,24 @@ func ruleReplyAddress(c *core.Ctx) {
 		key := core.FuncKey(fn)
 		bad := ""
 		typeStores := 0
-		for _, b := range fn.Blocks {
+		// the reply may be built by a helper that is handed the request (newReplyMessage(msg, …))
+		builder := fn
+		for _, call := range core.Calls(fn) {
+			g := core.StaticCallee(call)
+			if g == nil || g == fn || !inRepo(g) || len(g.Blocks) == 0 || g.Signature.Recv() != nil {
+				continue
+			}
+			for i, a := range call.Common().Args {
+				if pr, ok := core.Canon(a).(*ssa.Parameter); ok && pr.Parent() == fn && core.TypeIs(derefType(pr.Type()), "bus/net", "Message") && i < len(g.Params) {
+					for _, gc := range core.Calls(g) {
+						if f := core.StaticCallee(gc); f != nil && f.Name() == "NewMessage" {
+							builder = g
+						}
+					}
+				}
+			}
+		}
+		for _, b := range builder.Blocks {
 			for _, in := range b.Instrs {
 				st, ok := in.(*ssa.Store)
 				if !ok {
@@ -425,11 +442,11 @@ func ruleReplyAddress(c *core.Ctx) {
 		}
 		// the header given to NewMessage derives from msg.Header
 		derived := false
-		for _, call := range core.Calls(fn) {
+		for _, call := range core.Calls(builder) {
 			if f := core.StaticCallee(call); f != nil && f.Name() == "NewMessage" {
 				p := core.AccessPath(call.Common().Args[0])
 				if len(p.Fields) == 1 && p.Fields[0].Name() == "Header" {
-					if pr, ok := p.Root.(*ssa.Parameter); ok && pr.Parent() == fn {
+					if pr, ok := p.Root.(*ssa.Parameter); ok && pr.Parent() == builder {
 						derived = true
 					}
 				}
@@ -586,4 +603,11 @@ func rulePostNoReply(c *core.Ctx, isType func(ssa.Value) bool, isPost func(ssa.V
 		}
 		c.Fail("C04.post-decode-error", f, filePos[f], fmt.Sprintf("a Post whose arguments cannot be decoded is answered with an Error message (%d stub methods send the decode error without testing the message type)", len(uniq)))
 	}
+}
+
+func derefType(t types.Type) types.Type {
+	if p, ok := t.(*types.Pointer); ok {
+		return p.Elem()
+	}
+	return t
 }
